@@ -260,6 +260,14 @@ Builtin(mm, name, args) ==
     [] name = "is_callable" -> IF n # 1 THEN WrongArgs ELSE Ok(h, VBool(args[1].k \in {"func", "builtin", "hostfn"}))
     [] name = "is_iterable" -> IF n # 1 THEN WrongArgs
                                ELSE Ok(h, VBool(args[1].k \in {"array", "map", "string", "bytes", "undef"}))
+    [] name = "range" ->   \* range(start, stop[, step]): ints from start towards stop (exclusive), step > 0
+         IF n < 2 \/ n > 3 THEN WrongArgs
+         ELSE IF \E i \in 1..n : args[i].k # "int" THEN BadArg
+         ELSE IF n = 3 /\ args[3].n <= 0 THEN Err("range_step")
+         ELSE LET a == args[1].n b == args[2].n st == IF n = 3 THEN args[3].n ELSE 1
+                  cnt == IF a <= b THEN (b - a + st - 1) \div st ELSE (a - b + st - 1) \div st
+              IN IF cnt > 64 THEN Excluded("range")
+                 ELSE NewArr(h, [i \in 1..cnt |-> VInt(IF a <= b THEN a + (i - 1) * st ELSE a - (i - 1) * st)])
     [] OTHER -> Excluded("builtin-not-modelled")
 
 \* ------------------------------------------------------------------- calls
